@@ -257,7 +257,11 @@ where
     let server_addr = format!("{}:{}", config.host, config.port).to_socket_addrs()?.next().ok_or(anyhow!("server address is not available"))?;
     let context = new_context(config)?;
     // client->local|inbound, local->client|inbound
-    let (mut client_local, mut local_client) = UdpFramed::new(inbound, Socks5UdpCodec).split();
+    // Replies are written to the socket directly, one `send_to` each: a datagram that cannot be sent (too long once the
+    // SOCKS5 header is in front of it) is reported and forgotten. Sent through the framed sink it stayed in the sink's
+    // buffer, and every later reply failed on it again.
+    let inbound = Arc::new(inbound);
+    let mut local_client = UdpFramed::new(inbound.clone(), Socks5UdpCodec);
     let ttl = Duration::from_secs(600);
     let mut client_server_cache: LruCache<Key, Binding<Out, OutSend>> = LruCache::with_expiry_duration_and_capacity(ttl, 64);
     let (client_local_tx, mut client_local_rx) = mpsc::channel(1024);
@@ -271,7 +275,13 @@ where
             // client->local|mpsc
             Some((item, key)) = client_local_rx.recv() => {
                 client_server_cache.get(&key);
-                client_local.send(item).await.unwrap_or_else(|e| error!("[udp] failed to send inbound msg; error={}", e));
+                let (packet, local_addr) = item;
+                let mut datagram = BytesMut::new();
+                let sent = match Socks5UdpCodec.encode(packet, &mut datagram) {
+                    Ok(()) => inbound.send_to(&datagram, local_addr).await.map(|_| ()).map_err(anyhow::Error::from),
+                    Err(e) => Err(e),
+                };
+                sent.unwrap_or_else(|e| error!("[udp] failed to send inbound msg; error={}", e));
             }
             // local->client|inbound
             item = local_client.next() => {
